@@ -536,4 +536,366 @@ theorem inv_run (s : State) (ops : List Op) (h : Inv s) : Inv (run s ops) := by
   | nil => exact h
   | cons op ops ih => exact ih _ (inv_step h op)
 
+/-! ### Invariants that need the `Flushed` contract -/
+
+/-- `exact`: a coroutine listener has observed exactly what was emitted / cancelled while it was waiting (in order,
+each once), except for the one outcome it is about to read; `form`: for a listener that has only ever re-awaited
+this is everything emitted since it subscribed -/
+structure FEx (s : State) : Prop where
+  exact : ∀ l, l < s.next → s.isCb l = false →
+    s.expect l = s.got l ++ (if l ∈ s.rel then [readNow s] else [])
+  form : ∀ l, l < s.next → s.pure l = true →
+    s.expect l = (s.emitted.drop (s.subAt l)).map Out.val ++ (if s.handles = 0 then [Out.canceled] else [])
+
+/-- a listener that has only ever re-awaited is waiting or released as long as the signal is connected -/
+def Present (s : State) (l : Nat) : Prop := s.pure l = true → s.handles ≠ 0 → l ∈ s.chain ∨ l ∈ s.rel
+
+structure FInv (s : State) : Prop where
+  ex : FEx s
+  present : ∀ l, l < s.next → Present s l
+
+theorem finv_init : FInv init := by
+  refine ⟨⟨?_, ?_⟩, ?_⟩ <;> simp [init]
+
+theorem fex_reawait {s : State} (h : FEx s) {l : Nat} (hr : l ∉ s.rel) (hp : s.handles = 0 → s.pure l = false) :
+    FEx (reawait s l) := by
+  unfold reawait
+  by_cases h0 : s.handles = 0
+  · rw [if_pos h0]
+    refine ⟨?_, ?_⟩ <;> dsimp only
+    · intro l' hl' hk'
+      have := h.exact l' hl' hk'
+      by_cases e : l' = l
+      · subst e; simp only [hr, if_false, List.append_nil, upd_same] at this ⊢; rw [this]
+      · simp only [upd_other _ _ e]; exact this
+    · intro l' hl' hp'
+      have e : l' ≠ l := by intro e; subst e; rw [hp h0] at hp'; cases hp'
+      simp only [upd_other _ _ e]; exact h.form l' hl' hp'
+  · rw [if_neg h0]
+    exact ⟨h.exact, h.form⟩
+
+theorem present_reawait_self (s : State) (l : Nat) : Present (reawait s l) l := by
+  unfold reawait Present
+  by_cases h0 : s.handles = 0
+  · rw [if_pos h0]; intro _ hh; exact absurd h0 hh
+  · rw [if_neg h0]; intro _ _; exact Or.inl (List.mem_cons_self)
+
+theorem present_reawait_other {s : State} {l l' : Nat} (h : Present s l') : Present (reawait s l) l' := by
+  unfold reawait Present at *
+  by_cases h0 : s.handles = 0
+  · rw [if_pos h0]; exact h
+  · rw [if_neg h0]; intro a b; rcases h a b with e | e
+    · exact Or.inl (List.mem_cons_of_mem _ e)
+    · exact Or.inr e
+
+theorem finv_listen {s : State} (hi : Inv s) (h : FInv s) (sc : List Act) : FInv (stepListen s sc).1 := by
+  have hnr : s.next ∉ s.rel := (fresh_next_notin hi).2.1
+  unfold stepListen reawait fresh
+  by_cases h0 : s.handles = 0
+  · rw [if_pos h0]
+    refine ⟨⟨?_, ?_⟩, ?_⟩ <;> dsimp only
+    · intro l hl hk
+      by_cases e : l = s.next
+      · subst e; simp [hnr]
+      · rw [upd_other _ _ e] at hk
+        simp only [upd_other _ _ e]
+        exact h.ex.exact l (by omega) hk
+    · intro l hl hp
+      by_cases e : l = s.next
+      · subst e; simp [h0]
+      · rw [upd_other _ _ e] at hp
+        simp only [upd_other _ _ e]
+        exact h.ex.form l (by omega) hp
+    · intro l hl hp hh; exact absurd h0 hh
+  · rw [if_neg h0]
+    refine ⟨⟨?_, ?_⟩, ?_⟩ <;> dsimp only
+    · intro l hl hk
+      by_cases e : l = s.next
+      · subst e; simp [hnr]
+      · rw [upd_other _ _ e] at hk
+        simp only [upd_other _ _ e]
+        exact h.ex.exact l (by omega) hk
+    · intro l hl hp
+      by_cases e : l = s.next
+      · subst e; simp [h0]
+      · rw [upd_other _ _ e] at hp
+        simp only [upd_other _ _ e]
+        exact h.ex.form l (by omega) hp
+    · intro l hl
+      unfold Present; dsimp only
+      by_cases e : l = s.next
+      · subst e; intro _ _; exact Or.inl List.mem_cons_self
+      · rw [upd_other _ _ e]
+        intro a b
+        rcases h.present l (by omega) a b with e' | e'
+        · exact Or.inl (List.mem_cons_of_mem _ e')
+        · exact Or.inr e'
+
+theorem finv_listen0 {s : State} (hi : Inv s) (h : FInv s) (sc : List Act) : FInv (stepListen0 s sc).1 := by
+  have hnr : s.next ∉ s.rel := (fresh_next_notin hi).2.1
+  unfold stepListen0 fresh
+  refine ⟨⟨?_, ?_⟩, ?_⟩ <;> dsimp only
+  · intro l hl hk
+    by_cases e : l = s.next
+    · subst e; simp [hnr]
+    · rw [upd_other _ _ e] at hk
+      simp only [upd_other _ _ e]
+      exact h.ex.exact l (by omega) hk
+  · intro l hl hp
+    by_cases e : l = s.next
+    · subst e; simp at hp
+    · rw [upd_other _ _ e] at hp
+      simp only [upd_other _ _ e]
+      exact h.ex.form l (by omega) hp
+  · intro l hl
+    unfold Present; dsimp only
+    by_cases e : l = s.next
+    · subst e; simp
+    · rw [upd_other _ _ e]; exact h.present l (by omega)
+
+theorem finv_connect {s : State} (h : FInv s) (n : Nat) : FInv (stepConnect s n).1 := by
+  unfold stepConnect
+  by_cases h0 : s.handles = 0
+  · rw [if_pos h0]; exact h
+  · rw [if_neg h0]
+    unfold fresh
+    refine ⟨⟨?_, ?_⟩, ?_⟩ <;> dsimp only
+    · intro l hl hk
+      by_cases e : l = s.next
+      · subst e; simp at hk
+      · rw [upd_other _ _ e] at hk
+        simp only [upd_other _ _ e]
+        exact h.ex.exact l (by omega) hk
+    · intro l hl hp
+      by_cases e : l = s.next
+      · subst e; simp at hp
+      · rw [upd_other _ _ e] at hp
+        simp only [upd_other _ _ e]
+        exact h.ex.form l (by omega) hp
+    · intro l hl
+      unfold Present; dsimp only
+      by_cases e : l = s.next
+      · subst e; simp
+      · rw [upd_other _ _ e]
+        intro a b
+        rcases h.present l (by omega) a b with e' | e'
+        · exact Or.inl (List.mem_cons_of_mem _ e')
+        · exact Or.inr e'
+
+theorem readNow_handles {s : State} {k : Nat} (h0 : s.handles ≠ 0) (hk : k ≠ 0) :
+    readNow { s with handles := k } = readNow s := by
+  simp [readNow, deref, h0, hk]
+
+theorem finv_handles {s : State} (h : FInv s) {k : Nat} (h0 : s.handles ≠ 0) (hk : k ≠ 0) :
+    FInv { s with handles := k } := by
+  refine ⟨⟨?_, ?_⟩, ?_⟩ <;> dsimp only
+  · intro l hl hc
+    rw [readNow_handles h0 hk]; exact h.ex.exact l hl hc
+  · intro l hl hp
+    have := h.ex.form l hl hp
+    simp only [h0, hk, if_false] at this ⊢; exact this
+  · intro l hl hp _; exact h.present l hl hp h0
+
+theorem finv_add {s : State} (h : FInv s) : FInv (stepAdd s).1 := by
+  unfold stepAdd
+  by_cases h0 : s.handles = 0
+  · rw [if_pos h0]; exact h
+  · rw [if_neg h0]; exact finv_handles h h0 (by omega)
+
+theorem finv_wake {s : State} (hi : Inv s) (h : FInv s) (l : Nat) : FInv (stepWake s l).1 := by
+  unfold stepWake
+  by_cases hl : l ∈ s.gated
+  · rw [if_pos hl]
+    have hp := hi.gated_impure _ hl
+    have hr : l ∉ s.rel := fun hr => hi.disj_rg _ hr hl
+    have h1 : FEx { s with gated := s.gated.erase l } := ⟨h.ex.exact, h.ex.form⟩
+    refine ⟨fex_reawait h1 hr (fun _ => hp), ?_⟩
+    intro l' hl'
+    have hl'' : l' < s.next := by simpa [reawait] using (by unfold reawait at hl'; split at hl' <;> exact hl')
+    exact present_reawait_other (s := { s with gated := s.gated.erase l }) (h.present l' hl'')
+  · rw [if_neg hl]; exact h
+
+theorem fex_resumed {s : State} (hi : Inv s) (h : FEx s) {l : Nat} (hl : l ∈ s.rel) {o : Out} (ho : readNow s = o) :
+    FEx { s with rel := s.rel.erase l, got := upd s.got l (s.got l ++ [o]) } := by
+  have hme : ∀ l', l' ∈ s.rel.erase l ↔ l' ≠ l ∧ l' ∈ s.rel := fun l' => List.Nodup.mem_erase_iff hi.rel_nodup
+  have hrn : readNow { s with rel := s.rel.erase l, got := upd s.got l (s.got l ++ [o]) } = readNow s := rfl
+  refine ⟨?_, h.form⟩
+  intro l' hl' hk'
+  have := h.exact l' hl' hk'
+  rw [hrn]
+  dsimp only at hl' hk' ⊢
+  by_cases e : l' = l
+  · subst e
+    have hn : l' ∉ s.rel.erase l' := fun hh => ((hme l').mp hh).1 rfl
+    simp only [hl, if_true] at this
+    simp only [hn, if_false, upd_same, List.append_nil, this, ho]
+  · have hi' : l' ∈ s.rel.erase l ↔ l' ∈ s.rel := by simp [hme, e]
+    simp only [upd_other _ _ e, hi']; exact this
+
+theorem present_resumed_other {s : State} (hi : Inv s) {l l' : Nat} (e : l' ≠ l) (f : Nat → List Out)
+    (h : Present s l') : Present { s with rel := s.rel.erase l, got := f } l' := by
+  have hme : ∀ l', l' ∈ s.rel.erase l ↔ l' ≠ l ∧ l' ∈ s.rel := fun l' => List.Nodup.mem_erase_iff hi.rel_nodup
+  intro a b
+  rcases h a b with e' | e'
+  · exact Or.inl e'
+  · exact Or.inr ((hme l').mpr ⟨e, e'⟩)
+
+theorem finv_afterValue {s : State} (h : FEx s) {l : Nat} (hr : l ∉ s.rel) (h0 : s.handles ≠ 0)
+    (hp : ∀ l', l' < s.next → l' ≠ l → Present s l') : FInv (afterValue s l) := by
+  unfold afterValue
+  split
+  · refine ⟨fex_reawait h hr (fun e => absurd e h0), ?_⟩
+    intro l' hl'
+    have hl'' : l' < s.next := by unfold reawait at hl'; split at hl' <;> exact hl'
+    by_cases e : l' = l
+    · subst e; exact present_reawait_self _ _
+    · exact present_reawait_other (hp l' hl'' e)
+  · rename_i rest _
+    have h' : FEx { s with script := upd s.script l rest } := ⟨h.exact, h.form⟩
+    refine ⟨fex_reawait h' hr (fun e => absurd e h0), ?_⟩
+    intro l' hl'
+    have hl'' : l' < s.next := by unfold reawait at hl'; split at hl' <;> exact hl'
+    by_cases e : l' = l
+    · subst e; exact present_reawait_self _ _
+    · exact present_reawait_other (s := { s with script := upd s.script l rest }) (hp l' hl'' e)
+  · refine ⟨⟨h.exact, ?_⟩, ?_⟩ <;> dsimp only
+    · intro l' hl' hp'
+      have e : l' ≠ l := by intro e; subst e; simp at hp'
+      rw [upd_other _ _ e] at hp'; exact h.form l' hl' hp'
+    · intro l' hl'
+      unfold Present; dsimp only
+      by_cases e : l' = l
+      · subst e; simp
+      · rw [upd_other _ _ e]; exact hp l' hl' e
+  · refine ⟨⟨h.exact, ?_⟩, ?_⟩ <;> dsimp only
+    · intro l' hl' hp'
+      have e : l' ≠ l := by intro e; subst e; simp at hp'
+      rw [upd_other _ _ e] at hp'; exact h.form l' hl' hp'
+    · intro l' hl'
+      unfold Present; dsimp only
+      by_cases e : l' = l
+      · subst e; simp
+      · rw [upd_other _ _ e]; exact hp l' hl' e
+
+theorem finv_resume {s : State} (hi : Inv s) (h : FInv s) (l : Nat) : FInv (stepResume s l).1 := by
+  unfold stepResume
+  by_cases hl : l ∈ s.rel
+  · rw [if_pos hl]
+    have hme : ∀ l', l' ∈ s.rel.erase l ↔ l' ≠ l ∧ l' ∈ s.rel := fun l' => List.Nodup.mem_erase_iff hi.rel_nodup
+    split
+    next v hv =>
+      have h0 : s.handles ≠ 0 := by
+        intro h0; simp [readNow, h0] at hv
+      refine finv_afterValue (fex_resumed hi h.ex hl hv) (fun hh => ((hme l).mp hh).1 rfl) h0 ?_
+      intro l' hl' e
+      exact present_resumed_other hi e _ (h.present l' hl')
+    next hnv =>
+      refine ⟨fex_resumed hi h.ex hl rfl, ?_⟩
+      intro l' hl'
+      by_cases e : l' = l
+      · subst e
+        intro _ h0
+        obtain ⟨v, hv⟩ := hi.rel_val _ hl h0
+        exact absurd (show readNow s = Out.val v by simp [readNow, h0, hv]) (hnv v)
+      · exact present_resumed_other hi e _ (h.present l' hl')
+  · rw [if_neg hl]; exact h
+
+/-- `exact` after the whole chain has been released with outcome `o`, when nothing was left unflushed -/
+theorem exact_release {s : State} (h : FEx s) (hrel : s.rel = []) (o : Out) (l : Nat) (hl : l < s.next)
+    (hk : s.isCb l = false) :
+    (if l ∈ s.chain then s.expect l ++ [o] else s.expect l)
+      = s.got l ++ (if l ∈ s.rel ++ corosOf s then [o] else []) := by
+  have := h.exact l hl hk
+  simp only [hrel, List.not_mem_nil, if_false, List.append_nil] at this
+  have hm : l ∈ s.rel ++ corosOf s ↔ l ∈ s.chain := by
+    rw [mem_rel_coros, hrel]; simp [hk]
+  simp only [hm]
+  split <;> simp [this]
+
+theorem finv_emit {s : State} (hi : Inv s) (h : FInv s) (hrel : s.rel = []) (byRef : Bool) (v : Nat) :
+    FInv (stepEmit s byRef v).1 := by
+  unfold stepEmit
+  by_cases h0 : s.handles = 0
+  · rw [if_pos h0]; exact h
+  · rw [if_neg h0]
+    refine ⟨⟨?_, ?_⟩, ?_⟩ <;> dsimp only
+    · intro l hl hk
+      have hn : l ∉ cbsOf s := fun hh => by have := (mem_cbsOf.mp hh).2; simp [hk] at this
+      simp only [hn, if_false]
+      have := exact_release h.ex hrel (Out.val v) l hl hk
+      rw [this]
+      congr 1
+      split
+      · simp only [readNow, h0, if_false]
+        have := deref_emit s byRef v
+        simp only [deref] at this ⊢
+        rw [this]
+      · rfl
+    · intro l hl hp
+      have old := h.ex.form l hl hp
+      have hc : l ∈ s.chain := by
+        rcases h.present l hl hp h0 with e | e
+        · exact e
+        · rw [hrel] at e; cases e
+      simp only [h0, if_false, List.append_nil] at old ⊢
+      simp only [hc, if_true, old]
+      rw [List.drop_append_of_le_length (hi.sub_le l hl)]
+      simp
+    · intro l hl hp _
+      have hc : l ∈ s.chain := by
+        rcases h.present l hl hp h0 with e | e
+        · exact e
+        · rw [hrel] at e; cases e
+      exact Or.inr (mem_rel_coros.mpr (Or.inr ⟨hc, hi.pure_coro l hp⟩))
+
+theorem finv_drop {s : State} (h : FInv s) (hrel : s.handles = 1 → s.rel = []) :
+    FInv (stepDrop s).1 := by
+  unfold stepDrop
+  by_cases h0 : s.handles = 0
+  · rw [if_pos h0]; exact h
+  · rw [if_neg h0]
+    by_cases h1 : s.handles = 1
+    · rw [if_pos h1]
+      have hrel := hrel h1
+      refine ⟨⟨?_, ?_⟩, ?_⟩ <;> dsimp only
+      · intro l hl hk
+        have hn : l ∉ cbsOf s := fun hh => by have := (mem_cbsOf.mp hh).2; simp [hk] at this
+        simp only [hn, if_false]
+        have := exact_release h.ex hrel Out.canceled l hl hk
+        rw [this]
+        congr 1
+      · intro l hl hp
+        have old := h.ex.form l hl hp
+        have hc : l ∈ s.chain := by
+          rcases h.present l hl hp h0 with e | e
+          · exact e
+          · rw [hrel] at e; cases e
+        simp only [h0, if_false, List.append_nil] at old
+        simp only [hc, if_true, old]
+      · intro l hl hp hh; exact absurd rfl hh
+    · rw [if_neg h1]; exact finv_handles h h0 (by omega)
+
+theorem finv_step {s : State} (hi : Inv s) (h : FInv s) (op : Op) (hf : needsFlush s op = true → s.rel = []) :
+    FInv (step s op).1 := by
+  cases op with
+  | listen sc => exact finv_listen hi h sc
+  | listen0 sc => exact finv_listen0 hi h sc
+  | connect n => exact finv_connect h n
+  | emit r v => exact finv_emit hi h (hf rfl) r v
+  | resume l => exact finv_resume hi h l
+  | wake l => exact finv_wake hi h l
+  | addHandle => exact finv_add h
+  | dropHandle => exact finv_drop h (fun h1 => hf (by simp [needsFlush, h1]))
+
+theorem finv_run (s : State) (ops : List Op) (hi : Inv s) (h : FInv s) (hf : Flushed s ops) : FInv (run s ops) := by
+  induction ops generalizing s with
+  | nil => exact h
+  | cons op ops ih => exact ih _ (inv_step hi op) (finv_step hi h op hf.1) hf.2
+
+instance decFlushed : (s : State) → (ops : List Op) → Decidable (Flushed s ops)
+  | _, [] => isTrue trivial
+  | s, op :: ops =>
+    have := decFlushed (step s op).1 ops
+    (inferInstance : Decidable ((needsFlush s op = true → s.rel = []) ∧ Flushed (step s op).1 ops))
+
 end Cocls.Signal
